@@ -324,6 +324,7 @@ type world struct {
 	ln       transport.Listener
 	laddr    ma.Multiaddr
 	accepted chan transport.CapableConn
+	paused   atomic.Bool // the harness's accept loop does not call Accept while set
 }
 
 func mkWorld(t *testing.T, cfg config) *world {
@@ -340,6 +341,9 @@ func mkWorld(t *testing.T, cfg config) *world {
 	w.ln = w.srv.up.UpgradeListener(w.srv.tpt, &faultListener{Listener: ml, plan: w.srv.plan})
 	go func() {
 		for {
+			for w.paused.Load() {
+				time.Sleep(2 * time.Millisecond)
+			}
 			c, err := w.ln.Accept()
 			if err != nil {
 				close(w.accepted)
@@ -496,6 +500,88 @@ func (w *world) attempt(out *verifh.Out, faulty int, kind, at int, special int) 
 	return r, wr
 }
 
+// slowAccept: nobody calls Accept for longer than the accept timeout while k
+// connections complete their upgrade: the listener must drop them (accept-queue
+// timeout) and release everything it held for them.
+func (w *world) slowAccept(out *verifh.Out, k int, kill bool) {
+	cli, srv := w.cli, w.srv
+	cli.plan.set(fNone, 0)
+	srv.plan.set(fNone, 0)
+	runtime.GC()
+	time.Sleep(15 * time.Millisecond)
+	baseG := runtime.NumGoroutine()
+	baseC, baseS := stat(cli.rm), stat(srv.rm)
+	w.paused.Store(true)
+	time.Sleep(10 * time.Millisecond) // let the loop park (one Accept call may already be pending)
+	var conns []transport.CapableConn
+	for i := 0; i < k; i++ {
+		ctx, cancel := context.WithTimeout(context.Background(), 400*time.Millisecond)
+		c, err := cli.tpt.Dial(ctx, w.laddr, srv.id)
+		cancel()
+		if err == nil {
+			conns = append(conns, c)
+		}
+	}
+	if kill {
+		// the remote goes away while the upgraded connections wait in the accept
+		// queue; Accept is called again BEFORE the accept timeout expires
+		for _, c := range conns {
+			c.Close()
+		}
+		time.Sleep(120 * time.Millisecond)
+	} else {
+		time.Sleep(700 * time.Millisecond) // accept timeout is 400ms
+	}
+	w.paused.Store(false)
+	delivered := 0
+	for done := false; !done; {
+		select {
+		case c, ok := <-w.accepted:
+			if ok && c != nil {
+				delivered++
+				c.Close()
+			} else {
+				done = true
+			}
+		case <-time.After(100 * time.Millisecond):
+			done = true
+		}
+	}
+	for _, c := range conns {
+		c.Close()
+	}
+	var dC, dS usage
+	settle(5*time.Second, func() bool {
+		c, s := stat(cli.rm), stat(srv.rm)
+		dC = usage{c.conns - baseC.conns, c.fd - baseC.fd, c.streams - baseC.streams, c.mem - baseC.mem}
+		dS = usage{s.conns - baseS.conns, s.fd - baseS.fd, s.streams - baseS.streams, s.mem - baseS.mem}
+		return dC == usage{} && dS == usage{} && runtime.NumGoroutine() <= baseG
+	})
+	gl := int64(runtime.NumGoroutine() - baseG)
+	if gl < 0 {
+		gl = 0
+	}
+	sf := srv.plan.conn()
+	closed := int64(1)
+	if sf != nil && !sf.closed.Load() {
+		closed = 0
+	}
+	cfgv := w.cfg.id*10 + 6
+	fk := int64(200)
+	if kill {
+		cfgv, fk = w.cfg.id*10+7, 201
+	}
+	out.Case([]int64{1, cfgv, fk, int64(k), 0, 1, 2, dC.conns, dC.fd, dC.mem, dC.streams, gl})
+	out.Case([]int64{2, cfgv, fk, int64(k), b2i(delivered < k), closed, 2, dS.conns, dS.fd, dS.mem, dS.streams, gl})
+	out.Cover("attempt.slow_accept")
+	if kill {
+		out.Cover("attempt.conn_died_in_accept_queue")
+	}
+	if delivered < k {
+		out.Cover("attempt.slow_accept_dropped_conns")
+	}
+}
+
 func TestVerifC04(t *testing.T) {
 	out, err := verifh.Open()
 	if err != nil {
@@ -547,6 +633,8 @@ func TestVerifC04(t *testing.T) {
 			}
 			w.attempt(out, 0, fNone, 0, special)
 		}
+		w.slowAccept(out, 1+int(cfg.id%3), false)
+		w.slowAccept(out, 1+int((cfg.id+1)%3), true)
 		w.close()
 	}
 	// metrics enabled with a dialer that does not return a *net.TCPConn
